@@ -209,9 +209,23 @@ func main() {
 		{{{Name: sp("a.go"), Content: "x" + mk("p") + "y"}, {Name: sp("a.go"), Content: "x" + mk("p") + "y"}, {IP: "p", Content: "LOST"}, {Name: sp("a.go"), IP: "p", Content: "KEPT"}}},
 		// patch order, several occurrences, markers without patches, unterminated marker
 		{{{Name: sp("a.go"), Content: mk("p") + "-" + mk("q") + "-" + mk("p") + "-@@thriftgo_insertion_point(p"}, {IP: "p", Content: "1"}, {IP: "p", Content: "2"}, {IP: "zz", Content: "3"}}},
+		// insertion point names outside the marker alphabet: one key of the replacer is a prefix of
+		// another; the longer key wins whatever order the table delivers them in (repaired defect:
+		// the keys used to be listed in map order)
+		{{{Name: sp("a.go"), Content: "x" + mk("a)b") + "y"}, {IP: "a)b", Content: "P"}}},
+		{{{Name: sp("a.go"), Content: "x" + mk("a)b") + "y" + mk("a") + "z"}, {IP: "a", Content: "1"}, {IP: "a)b", Content: "2"}}},
+		{{{Name: sp("a.go"), Content: "x" + mk("a)b") + "y" + mk("a") + "z"}, {IP: "a)b", Content: "2"}, {IP: "a", Content: "1"}}},
+		{{{Name: sp("a.go"), Content: mk("a)b)c") + "-" + mk("a)b") + "-" + mk("a") + "-" + mk("a)c")}, {IP: "a)b)c", Content: "3"}, {IP: "a", Content: "1"}, {IP: "a)b", Content: "2"}}},
+		{{{Name: sp("a.go"), Content: mk("p") + "q)" + mk("p)q")}}, {{Name: sp("a.go"), IP: "p)q", Content: "L"}, {Name: sp("a.go"), IP: "p", Content: "S"}}},
 	}
 	for _, h := range corpus {
 		add("corpus", h)
+	}
+	// the same histories again: a table listed in map order gives different texts on different runs
+	for rep := 0; rep < 6; rep++ {
+		for _, h := range corpus[len(corpus)-5:] {
+			add("corpus-overlap", h)
+		}
 	}
 
 	// ---- exhaustive small histories ----
@@ -253,7 +267,7 @@ func main() {
 	// ---- random longer histories ----
 	r := rng.New(*seed)
 	rnames := []string{"a.go", "a_1.go", "a_2.go", "a_1_1.go", "b", "b_1", "d/a.go", "d.x/a", "a.b.go", "", "_1"}
-	ips := []string{"p", "q", "p.q", "$x", "r-s", "", "Q_9"}
+	ips := []string{"p", "q", "p.q", "$x", "r-s", "", "Q_9", "p)q", "p)"}
 	piece := func() string {
 		switch r.Intn(8) {
 		case 0, 1:
